@@ -57,10 +57,108 @@ def extract_crc_tab(ck):
     return True
 
 
+GEN_CONSTS = os.path.join(vf.LEAN, "Usual", "Gen", "C16Consts.lean")
+
+
+def _src(rel):
+    t = open(vf.repo_file(rel), encoding="latin-1").read()
+    t = re.sub(r"/\*.*?\*/", " ", t, flags=re.S)
+    return re.sub(r"//[^\n]*", " ", t)
+
+
+def _macro_body(src, name):
+    """text of a multi-line #define (continuation lines joined)"""
+    m = re.search(r"#define\s+" + name + r"\b[^\n]*\\\n((?:[^\n]*\\\n)*[^\n]*)", src)
+    return m.group(0).replace("\\\n", "\n") if m else ""
+
+
+def extract_consts(ck):
+    """rotation tables, primes and other constants of spooky.c / siphash.c / xxhash.c / lookup3.c ->
+    lean/Usual/Gen/C16Consts.lean; `*_constants_ok` in Props/C16.lean re-prove on every run that they
+    are the published ones (the tables of the specifications)."""
+    c = {}
+    problems = []
+    try:
+        sp = _src("usual/hashing/spooky.c")
+        m = re.search(r"sc_const\s*=\s*(0x[0-9a-fA-F]+)", sp)
+        c["spookyConst"] = int(m.group(1), 16) if m else 0
+        env = {}
+        for nm, ex in re.findall(r"#define\s+(sc_\w+)\s+([^\n]+)", sp):
+            ex = ex.strip()
+            if re.fullmatch(r"[\w\s()*+]+", ex):
+                try:
+                    env[nm] = int(eval(ex, {"__builtins__": {}}, dict(env)))
+                except Exception:
+                    pass
+        c["spookyNumVars"] = env.get("sc_numVars", 0)
+        c["spookyBlockSize"] = env.get("sc_blockSize", 0)
+        c["spookyBufSize"] = env.get("sc_bufSize", 0)
+        for mac, key in (("Mix", "spookyMixRot"), ("EndPartial", "spookyEndPartialRot"),
+                         ("ShortMix", "spookyShortMixRot"), ("ShortEnd", "spookyShortEndRot")):
+            c[key] = [int(x) for x in re.findall(r"rol64\(\s*\w+\s*,\s*(\d+)\s*\)", _macro_body(sp, mac))]
+
+        si = _src("usual/hashing/siphash.c")
+        byvar = [[], [], [], []]
+        for v, v2, k in re.findall(r"v(\d)\s*=\s*rol64\(\s*v(\d)\s*,\s*(\d+)\s*\)", _macro_body(si, "SIP_ROUND1")):
+            if v == v2 and int(v) < 4:
+                byvar[int(v)].append(int(k))
+        c["sipRotByVar"] = byvar
+        c["sipInit"] = [int(x, 16) for x in re.findall(r"UINT64_C\(\s*(0x[0-9a-fA-F]+)\s*\)", si)]
+        body = si[si.find("uint64_t siphash24("):]
+        cs = set(re.findall(r"sip_compress\((\d+)\)", body))
+        ds = set(re.findall(r"sip_finalize\((\d+)\)", body))
+        c["sipC"] = int(cs.pop()) if len(cs) == 1 else 0
+        c["sipD"] = int(ds.pop()) if len(ds) == 1 else 0
+        m = re.search(r"v2\s*\^=\s*(0x[0-9a-fA-F]+)", si)
+        c["sipFinalXor"] = int(m.group(1), 16) if m else 0
+
+        xx = _src("usual/hashing/xxhash.c")
+        pr = dict((int(n), int(v)) for n, v in re.findall(r"#define\s+PRIME32_(\d)\s+(\d+)U", xx))
+        c["xxhPrimes"] = [pr.get(i, 0) for i in range(1, 6)]
+        c["xxhRot"] = [int(x) for x in re.findall(r"rol32\(\s*\w+\s*,\s*(\d+)\s*\)", xx)]
+        c["xxhShift"] = [int(x) for x in re.findall(r"h32\s*>>\s*(\d+)", xx)]
+
+        l3 = _src("usual/hashing/lookup3.c")
+        c["l3MixRot"] = [int(x) for x in re.findall(r"rot\(\s*\w+\s*,\s*(\d+)\s*\)", _macro_body(l3, "mix"))]
+        c["l3FinalRot"] = [int(x) for x in re.findall(r"rot\(\s*\w+\s*,\s*(\d+)\s*\)", _macro_body(l3, "final"))]
+        m = re.search(r"=\s*(0x[0-9a-fA-F]+)\s*\+\s*len", l3)
+        c["l3Init"] = int(m.group(1), 16) if m else 0
+    except Exception as e:          # unreadable source: the tie is broken, say so
+        problems.append("extract: %r" % (e,))
+    order = ["spookyConst", "spookyNumVars", "spookyBlockSize", "spookyBufSize", "spookyMixRot",
+             "spookyEndPartialRot", "spookyShortMixRot", "spookyShortEndRot", "sipRotByVar", "sipInit", "sipC",
+             "sipD", "sipFinalXor", "xxhPrimes", "xxhRot", "xxhShift", "l3MixRot", "l3FinalRot", "l3Init"]
+
+    def lean(v):
+        if isinstance(v, list):
+            return "[" + ", ".join(lean(x) for x in v) + "]"
+        return str(v)
+
+    def typ(v):
+        if isinstance(v, list) and v and isinstance(v[0], list):
+            return "List (List Nat)"
+        return "List Nat" if isinstance(v, list) else "Nat"
+    txt = ("/-! GENERATED on every run by checks/C16.py from usual/hashing/{spooky,siphash,xxhash,lookup3}.c\n"
+           "(working tree): rotation amounts in source order, primes, initialisation constants, sizes.\n"
+           "Do not edit. -/\nnamespace Usual.Gen.C16Consts\n\n")
+    for k in order:
+        v = c.get(k, 0)
+        t = "List (List Nat)" if k == "sipRotByVar" else ("Nat" if not isinstance(v, list) else "List Nat")
+        txt += "def %s : %s := %s\n" % (k, t, lean(v))
+    txt += "\nend Usual.Gen.C16Consts\n"
+    vf.write_if_changed(GEN_CONSTS, txt)
+    ck.cov["constants_extracted"] = sum(len(v) if isinstance(v, list) else 1 for v in c.values())
+    if problems:
+        ck.broken += problems
+        ck.proof_ok = False
+    return c
+
+
 # ------------------------------------------------------------------------- build
 def build(ck):
     ck.forbid_scan()
     extract_crc_tab(ck)
+    extract_consts(ck)
     ck.build_proofs(PROP_MODULES, driver="drv_c16")
     hdir = os.path.join(vf.HARNESS, PID)
     # /repo's configuration (x86: WORDS_UNALIGNED_ACCESS_OK) makes spooky.c read uint64_t
@@ -264,9 +362,12 @@ def run(ck):
     ck.cov["by_function"] = {}
     ck.cov["trusted_base"] = [
         "Lean 4.33 kernel; axioms propext, Quot.sound, Classical.choice only",
-        "regeneration of crc_tab[] from crc32.c by a regex in checks/C16.py (crc_table_ok is re-proved on it)",
-        "models lean/Usual/C16/*.lean are hand transcriptions of lookup3.c/siphash.c/spooky.c/xxhash.c/memhash.c; "
-        "tied to the code by the differential run only",
+        "regeneration of crc_tab[] and of the rotation/prime/init constants of spooky.c, siphash.c, xxhash.c, "
+        "lookup3.c by regexes in checks/C16.py (crc_table_ok and *_constants_ok are re-proved on them)",
+        "models lean/Usual/C16/{Crc32,Lookup3,SipHash,Spooky,XXHash,MemHash}.lean are hand transcriptions of the C "
+        "files, tied to the code by the differential run; they are PROVED equal to specifications written from the "
+        "publications (SipHashPaper, Lookup3Pub, XXH32Spec, SpookyV2 — these import nothing from the models); "
+        "that those specifications render the publications faithfully is by reading (pinned by published vectors)",
         "harness/C16/h.c (placements, guard pages, ASan poisoning, comparison) and the from-the-publication "
         "references in harness/C16/refs.h; gcc ASan/UBSan instrumentation",
         "published test vectors typed into checks/C16.py:golden() and Props/C16.lean (tests)"]
@@ -289,22 +390,18 @@ def run(ck):
         "memhash.c a second time with sizeof forced to 4 (harness/C16/memhash_narrow.c, op mem32)",
         "spooky.c is compiled as /repo configures it (direct unaligned uint64_t reads, UBSan alignment check "
         "off for that object only) and a second time as a strict-alignment host would (memcpy variant)",
-        "'equals the published algorithm' for lookup3/siphash/xxh32 is proved against Lean transcriptions of "
-        "the publications; for SpookyHash V2 and the mixing functions of all four it rests on transcription, "
-        "published vectors and the independent C references"]
+        "'equals the published algorithm' is proved for all five against Lean specifications written from the "
+        "publications in their own notation (index form, rotation tables, constants from the papers); the "
+        "specifications themselves are trusted as renderings of the publications (published vectors are tests)"]
     ck.cov["partial"] = [
-        "spooky_eq_published (full statement, in a comment of Props/C16.lean) is proved only as "
-        "spooky_eq_published_partial: dispatch at 192 bytes, Short = its zero-padded formulation, long path = "
-        "block loop + End on the zero-padded last block with the length byte; that the transcribed "
-        "ShortMix/ShortEnd/Mix/EndPartial are the published ones rests on transcription, 64 published "
-        "TestResults vectors (short path only) and the independent C reference (both paths)",
-        "siphash24_eq_paper, hash_lookup3_eq_hashlittle2, xxh32_eq_spec are full equalities with Lean "
-        "transcriptions of the publications' block/tail/padding structure, but SipRound, mix/final, the XXH32 "
-        "round/avalanche and all constants are shared between model and spec (transcription; pinned by the "
-        "published vectors and the C references)",
-        "purity and boundedness of the C code itself (no read outside [data,data+len), independence of "
-        "address/alignment/surroundings) are observed by the guard-page/ASan run at 32 placements, not proved; "
-        "left-edge ASan poisoning is exact only for 8-aligned starts (L0/L8 and the matching R placements)",
+        "C-side purity and boundedness (no read outside [data,data+len), independence of address/alignment/"
+        "surroundings/call history) are observed by the guard-page/ASan run at 32 placements with interleaved "
+        "touch ops, not proved; left-edge ASan poisoning is exact only for 8-aligned starts (L0/L8 and the "
+        "matching R placements)",
+        "the models' statement structure (which variable is combined with which, which prime multiplies where) is "
+        "a hand transcription of the C text tied to it by the differential run; what is regenerated from the "
+        "sources and proved equal to the specifications' tables on every run are the constants (crc_tab, rotation "
+        "amounts, primes, init constants, sizes)",
         "cross-endian clause not exercisable on this host"]
 
     stats = os.path.join(ck.bdir, "ncalls.%d" % os.getpid())
